@@ -382,6 +382,24 @@ func head(h []string, n int) []string {
 
 // TestSequenceWrap pushes more than 65536 packets in each direction (fragment size 1-2) with sparse faults.
 func TestSequenceWrap(t *testing.T) {
+	// a Write that never returns (an acknowledgement that is lost for good, a packet parked for ever) must fail this
+	// test, not hang it: the run happens in its own goroutine under a bound that is generous for 70000 packets each way
+	var progress int64
+	done := make(chan struct{})
+	go func() {
+		defer close(done)
+		sequenceWrap(t, &progress)
+	}()
+	select {
+	case <-done:
+	case <-time.After(6 * time.Minute):
+		msg := fmt.Sprintf("the transfer across the sequence wrap stalled: a Write or the exchange loop has not returned after 6 minutes (%d bytes accepted from the client so far)", atomic.LoadInt64(&progress))
+		vlib.Rec.Violation(map[string]interface{}{"property": "C07", "test": "sequence-wrap", "problem": msg})
+		t.Fatalf("C07 sequence wrap: %s", msg)
+	}
+}
+
+func sequenceWrap(t *testing.T, progress *int64) {
 	seed := vlib.Seed()
 	rnd := seed*2862933555777941757 + 3037000493
 	next := func(n int) int {
@@ -461,6 +479,7 @@ func TestSequenceWrap(t *testing.T) {
 			// the bytes of the chunks already queued are delivered later; re-submit the rest
 		}
 		accepted += n
+		atomic.StoreInt64(progress, int64(accepted))
 		if accepted%4096 < 40 {
 			tn.drainReads()
 		}
